@@ -15,13 +15,14 @@ CLAIM = {
  'note': ('Trusted: Lean kernel; model<->code correspondence of the row index lists on the cases of the run; the repository '
           'readers (subjects of C04/C06/C13) as the source of truth for frame values; LASRead (C09) as the output parser; '
           'LIS Units.convert (C17) for FEET <-> .1IN. Known findings F11 (LIS/BIT last frame, LIS well section, BIT STRP), '
-          'F19, F7 and the C11-specific classes of known_findings.d/C11.json are tagged by strict class predicates.'),
+          'F7 and the C11-specific classes of known_findings.d/C11.json are tagged by strict class predicates.'),
  'technique': 'Lean 4 proof (omega, induction on lists) + model-implementation correspondence + end-to-end oracle',
  'design_ref': 'DESIGN.md section 6 C11',
 }
 
 RULE = ('sources: every example file of the three formats, truncations of them at record boundaries taken from the '
-        'repository index, LIS files with several log passes spliced from the examples, generated BIT files (own encoder); per source random (selector, channel subset, reduction, width, '
+        'repository index, LIS files with several log passes spliced from the examples, generated BIT files (own encoder), generated '
+        'RP66V1 files (C04 spec encoder: several frame types, multi-dimensional and integer channels); per source random (selector, channel subset, reduction, width, '
         'decimal format) with steps 1/2/3/large, negative / out-of-range / None bounds, sample sizes below/equal/above n, '
         'plus an exhaustive slice scope on a tiny generated BIT file. A case is non-trivial when at least 2 and fewer than '
         'n rows are selected or a non-empty channel subset is given; distinct by (family, source, pass length, selected rows, '
@@ -33,6 +34,10 @@ ASSUMPTIONS = ['the frame values returned by a full read with the repository rea
 TRUSTED = ['modelled, not verified: builtin slice.indices()/range() (C15 model)',
            'exercised, not proved: readers, reductions (numpy), float formatting, LAS layout, LASRead parsing']
 
+ANCHOR_FILES = ['src/TotalDepth/RP66V1/ToLAS.py', 'src/TotalDepth/LIS/ToLAS.py', 'src/TotalDepth/BIT/ToLAS.py',
+                'src/TotalDepth/LAS/core/WriteLAS.py', 'src/TotalDepth/common/Slice.py', 'src/TotalDepth/util/bin_file_type.py',
+                'src/TotalDepth/RP66V1/core/LogicalFile.py', 'src/TotalDepth/common/LogPass.py']
+
 FAMS = ('RP66V1', 'LIS', 'BIT')
 REDUCTIONS = ('first', 'mean', 'median', 'min', 'max')
 
@@ -41,13 +46,9 @@ F_DROP = 'F11-lis-bit-last-frame-dropped'
 F_BIT1 = 'F11-bit-single-frame-dropped-indexerror'
 F_LISW = 'F11-lis-well-section-whole-pass'
 F_STRP = 'F11-bit-strp'
-F_F19 = 'F19-lis-channel-subset-typeerror'
 F_F7 = 'F7-lis-indirect-x-stepped'
-F_RPE = 'C11-rp66-empty-selection-raises'
-F_LISCOL = 'C11-lis-columns-run-together'
 F_LIS1 = 'C11-lis-single-record-stop-step-zero'
-F_LISLP = 'C11-lis-log-pass-without-cons-dropped'
-# the next two can only be reached once F19 is repaired (candidate patch in notes/): residual classes of that patch
+# residual classes of the F19 repair (reachable since /repo commit 'fix: LIS to LAS with a channel subset raised TypeError')
 F_LISX0 = 'C11-lis-subset-without-known-channel-x-garbage'
 F_LISSUB = 'C11-lis-subset-subchannel-granularity'
 
@@ -243,8 +244,139 @@ def provider_bit_generated(env, fam, rng, tier):
     return [{'fam': 'BIT', 'kind': 'gen', 'desc': random_bit_desc(rng)} for _ in range(16 if tier == 'quick' else 60)]
 
 
+# ---- generated RP66V1 files: CHANNEL / FRAME tables and frame records from the C04 Lean spec encoder (`drv_c04 encfile`),
+#      FILE-HEADER and ORIGIN (with the attributes the converter reads) from the small EFLR encoder below, physical wrapping
+#      by gen/c03phys.py.  Several frame types per logical file, multi-dimensional and integer channels.
+
+EXTRA_LEAN_TARGETS = ('drv_c04',)
+RP66_INT_RANGE = {12: (-128, 127), 13: (-32768, 32767), 14: (-2 ** 31, 2 ** 31 - 1), 15: (0, 255), 16: (0, 65535), 17: (0, 2 ** 32 - 1)}
+RP66_DIMS = [[1], [1], [1], [2], [3], [2, 2], [1, 3], [4], [2, 3]]
+
+
+def _rp_ident(b): return bytes([len(b)]) + b
+def _rp_uvari(n): return bytes([n]) if n < 0x80 else struct.pack('>H', n | 0x8000)
+def _rp_ascii(b): return _rp_uvari(len(b)) + b
+
+
+def _rp_eflr(set_type, cols, objects):
+    """An EFLR body: SET(type), template of (label, rep code) attributes, objects [(origin, copy, ident), [value bytes]]."""
+    out = b'\xf0' + _rp_ident(set_type)
+    for label, rc in cols:
+        out += b'\x34' + _rp_ident(label) + bytes([rc])
+    for (o, c, i), vals in objects:
+        out += b'\x70' + _rp_uvari(o) + bytes([c]) + _rp_ident(i)
+        for v in vals:
+            out += b'\x21' + v
+    return out
+
+
+def rp66_header_records():
+    fh = _rp_eflr(b'FILE-HEADER', [(b'SEQUENCE-NUMBER', 20), (b'ID', 20)],
+                  [((2, 0, b'5'), [_rp_ascii(b'%10d' % 1), _rp_ascii(b'C11 GENERATED FILE'.ljust(65))])])
+    dtime = bytes([121, 3, 7, 10, 0, 49, 0, 0])
+    org = _rp_eflr(b'ORIGIN', [(b'FILE-ID', 20), (b'FILE-SET-NAME', 19), (b'FILE-SET-NUMBER', 18), (b'FILE-NUMBER', 18),
+                               (b'CREATION-TIME', 21), (b'WELL-NAME', 20), (b'FIELD-NAME', 20), (b'PRODUCER-NAME', 20), (b'COMPANY', 20)],
+                   [((2, 0, b'DEFINING'), [_rp_ascii(b'C11 GENERATED FILE'), _rp_ident(b'SET'), _rp_uvari(1), _rp_uvari(1), dtime,
+                                          _rp_ascii(b'WELL 1'), _rp_ascii(b'FIELD'), _rp_ascii(b'PRODUCER'), _rp_ascii(b'COMPANY')])])
+    return (False, True, 0, fh), (False, True, 1, org)
+
+
+def _rp_word(rng, rc, x=None):
+    """request token of one value: floats as raw words (`w<rc>.<word>`), integers as `i<v>`"""
+    if rc == 2:
+        return 'w2.%d' % struct.unpack('>I', struct.pack('>f', x))[0]
+    if rc == 7:
+        return 'w7.%d' % struct.unpack('>Q', struct.pack('>d', x))[0]
+    if rc == 5:      # IBM single: moderate exponents, any mantissa
+        return 'w5.%d' % (((0x80 if rng.random() < 0.3 else 0) | rng.randint(61, 68)) << 24 | rng.getrandbits(24))
+    return 'i%d' % x
+
+
+def random_rp66_request(rng):
+    used, fts, per = set(), [], []
+    for k in range(rng.choice([1, 1, 2, 2, 3])):
+        chans = []
+        for j in range(rng.randint(1, 5)):
+            while True:
+                nm = rng.choice('ABCDGHKLMPRSTVW') + ''.join(rng.choice('ABCDGHKLMPRSTVW0123456789') for _ in range(rng.randint(1, 4)))
+                if nm not in used and _not_a_number(nm): break
+            used.add(nm)
+            rc = rng.choice([2, 7, 14, 16, 17]) if j == 0 else rng.choice([2, 2, 5, 7, 7, 12, 13, 14, 15, 16, 17])
+            chans.append((nm, rc, [1] if j == 0 else rng.choice(RP66_DIMS)))
+        fts.append((b'FR%d' % k, chans))
+        per.append(rng.choice([1, 2, 3, 5, 8, 12, 20, rng.randint(1, 30)]))
+    lp = [str(len(fts))]
+    for ident, chans in fts:
+        lp += ['2', '0', ident.hex(), str(len(chans))]
+        for nm, rc, dims in chans:
+            lp += [nm.encode('ascii').hex(), str(rc), str(len(dims))] + [str(d) for d in dims]
+    order = [k for k, n in enumerate(per) for _ in range(n)]
+    rng.shuffle(order)
+    xstate = []
+    for ident, chans in fts:
+        rc = chans[0][1]
+        step = rng.choice([0.5, 1.0, 2.0, 10.0]) if rc in (2, 7) else rng.choice([1, 2, 10])
+        down = rng.random() < 0.4
+        x0 = rng.randint(2000, 30000) if rc in (16,) else rng.randint(2000, 900000)
+        xstate.append([x0, -step if down else step])
+    counters = [0] * len(fts)
+    frames = []
+    for k in order:
+        ident, chans = fts[k]
+        counters[k] += 1
+        x = xstate[k][0] + xstate[k][1] * (counters[k] - 1)
+        toks = ['%d' % k, '%d' % counters[k], 'V']
+        for j, (nm, rc, dims) in enumerate(chans):
+            cnt = 1
+            for d in dims: cnt *= d
+            toks.append(str(cnt))
+            for _ in range(cnt):
+                if j == 0:
+                    toks.append(_rp_word(rng, rc, float(x) if rc in (2, 7) else int(x)))
+                elif rc in (2, 7):
+                    toks.append(_rp_word(rng, rc, rng.choice([rng.uniform(-1000, 1000), rng.uniform(-1, 1), float(rng.randint(-10 ** 6, 10 ** 6)), -999.25])))
+                elif rc == 5:
+                    toks.append(_rp_word(rng, rc))
+                else:
+                    lo, hi = RP66_INT_RANGE[rc]
+                    toks.append(_rp_word(rng, rc, rng.choice([lo, hi, 0, rng.randint(lo, hi), rng.randint(max(lo, -100), min(hi, 100))])))
+        frames.append(' '.join(toks))
+    return 'encfile %s %d %s' % (' '.join(lp), len(frames), ' '.join(frames))
+
+
+def _drv_c04():
+    import core
+    return os.path.join(core.LEAN_DIR, '.lake', 'build', 'bin', 'drv_c04')
+
+
+def encode_rp66(spec):
+    import random, subprocess
+    from gen import c03phys
+    p = subprocess.run([_drv_c04()], input=(spec['req'] + '\n').encode(), stdout=subprocess.PIPE, stderr=subprocess.PIPE, timeout=600)
+    t = p.stdout.decode().strip().split(' ')
+    if p.returncode != 0 or not t[0].isdigit():
+        raise ValueError('drv_c04 refused the request: ' + p.stdout.decode()[:100])
+    recs = []
+    for k in range(int(t[0])):
+        e, x, ty, h = t[1 + 4 * k: 5 + 4 * k]
+        recs.append((e == '1', x == '1', int(ty), b'' if h == '-' else bytes.fromhex(h)))
+    recs[0], recs[1] = rp66_header_records()
+    return c03phys.wrap(recs, random.Random(spec['wseed']))
+
+
+def provider_rp66_generated(env, fam, rng, tier):
+    if fam != 'RP66V1' or not os.path.exists(_drv_c04()):
+        return []
+    try:
+        from gen import c03phys     # noqa: F401
+    except ImportError:
+        return []
+    return [{'fam': 'RP66V1', 'kind': 'gen04', 'req': random_rp66_request(rng), 'wseed': rng.getrandbits(32)}
+            for _ in range(10 if tier == 'quick' else 40)]
+
+
 SOURCE_PROVIDERS = {
-    'RP66V1': [provider_examples, provider_cuts],
+    'RP66V1': [provider_examples, provider_cuts, provider_rp66_generated],
     'LIS': [provider_examples, provider_cuts, provider_lis_splice],
     'BIT': [provider_examples, provider_cuts, provider_bit_generated],
 }
@@ -270,6 +402,8 @@ def materialise(spec, scratch):
     fam = spec['fam']
     if spec['kind'] == 'gen':
         path = os.path.join(d, 'gen.bit')
+    elif spec['kind'] == 'gen04':
+        path = os.path.join(d, 'gen.dlis')
     else:
         path = os.path.join(d, spec['name'])
     if os.path.exists(path):
@@ -285,6 +419,9 @@ def materialise(spec, scratch):
     elif spec['kind'] == 'gen' and fam == 'BIT':
         with open(path, 'wb') as f:
             f.write(encode_bit(spec['desc']))
+    elif spec['kind'] == 'gen04':
+        with open(path, 'wb') as f:
+            f.write(encode_rp66(spec))
     elif spec['kind'] == 'splice':
         with open(path, 'wb') as f:
             for nm, a, b in spec['parts']:
@@ -390,23 +527,6 @@ def read_truth(env, fam, path):
             cols = [np.array(c.array, dtype=np.float64).reshape(len(c.array), -1) for c in bfa.frame_array.channels]
             passes.append(Pass(str(k), [str(c.ident) for c in bfa.frame_array.channels], cols, [False] * len(cols)))
     return passes, stubs, extra
-
-
-def lis_kept_passes(seq):
-    """Class predicate of C11-lis-log-pass-without-cons-dropped: the converter starts a new LAS only at a CONS table that
-    follows a log pass, and keeps per group the first log pass with frames -> indices (among the passes with frames) of the
-    passes that get a LAS file, and the number of groups whose only log passes have no frames."""
-    kept, empty_groups = [], 0
-    cur = None          # the group's log pass: None / ['P', frames, id]
-    for e in seq + [['END']]:
-        if e[0] in ('C', 'END'):
-            if cur is not None:
-                if cur[1]: kept.append(cur[2])
-                else: empty_groups += 1
-                cur = None
-        elif cur is None or cur[1] == 0:
-            cur = e
-    return kept, empty_groups
 
 
 # ------------------------------------------------------------------ reference semantics (independent of the model)
@@ -534,10 +654,6 @@ def evaluate_case(env, case, truth, res, outs, outdir, v):
     for k, p in enumerate(passes):
         if fam == 'BIT' and p.cols and drop_class(sel, p.n) and len(py_rows(sel, p.n)) == 1:
             abort_at, abort_finding = k, F_BIT1; break
-        if fam == 'RP66V1' and sel[0] == 'slice' and p.n > 0 and not py_rows(sel, p.n):
-            abort_at, abort_finding = k, F_RPE; break
-    if fam == 'LIS' and chans and passes:
-        abort_at, abort_finding = 0, F_F19
     if res.ignored:
         v.fail(f'source file not recognised as {fam}: reported type "{res.binary_file_type}"'); return
     if res.exception:
@@ -567,13 +683,7 @@ def evaluate_case(env, case, truth, res, outs, outdir, v):
             cand = list(outs)
         eval_passes = passes
         if not res.exception and len(cand) != len(passes):
-            kept, empty_groups = lis_kept_passes(extra.get('lis_seq', [])) if fam == 'LIS' else (None, 0)
-            if fam == 'LIS' and not empty_groups and len(kept) == len(cand) < len(passes):
-                v.fail(f'{len(passes)} log passes with frames in the source but {len(cand)} LAS file(s): log pass(es) '
-                       f'{[k for k in range(len(passes)) if k not in kept]} (not preceded by a CONS table) are not converted', F_LISLP)
-                eval_passes = [passes[k] for k in kept]
-            else:
-                v.fail(f'{len(passes)} log pass(es) in the source but {len(cand)} LAS file(s) for log passes: {outs}'); return
+            v.fail(f'{len(passes)} log pass(es) with frames in the source but {len(cand)} LAS file(s) for log passes: {outs}'); return
         pass_outs = list(zip(cand, eval_passes))[:n_eval]
     if not res.exception and res.las_count != len(outs):
         v.fail(f'result.las_count={res.las_count} but {len(outs)} LAS files written')
@@ -602,11 +712,7 @@ def evaluate_pass(env, case, p, las_path, v):
         v.fail(f'{tag}: LAS not readable ({err}); no requested channel exists and the implied X is uninitialised', F_LISX0)
         return None, None
     if las is None:
-        # LIS writes the values with no separator: class = some value (not first on its line) as wide as the field
-        if fam == 'LIS' and _lis_overflow(p, exp_cols, refs, lis_rows_written(sel, n), w, ff):
-            v.fail(f'{tag}: LAS not readable ({err}); a value is at least as wide as the field', F_LISCOL)
-        else:
-            v.fail(f'{tag}: LAS file not readable by LASRead: {err}')
+        v.fail(f'{tag}: LAS file not readable by LASRead: {err}')
         return None, None
     fa = las.frame_array
     rows = las.number_of_frames() if fa is not None else 0
@@ -733,20 +839,6 @@ def lis_rows_written(sel, n):
     return list(range(n)) if N >= n else list(range(0, n - N + 1, n // N))
 
 
-def _lis_overflow(p, exp_cols, refs, rows, w, ff):
-    """some value that is not separated from its predecessor prints at least as wide as the field (LIS writes
-    `f'{value:>{width}}'` with no separator; the implied X is followed by a blank)."""
-    safe = 2 if p.indirect else 1
-    for k, i in enumerate(exp_cols):
-        if k < safe:
-            continue
-        ref = refs[i]
-        for r in rows:
-            if len(format(float(ref[r]), ff)) >= w:
-                return True
-    return False
-
-
 def _f7_rows(p, obs):
     """frames whose implied X the known defect F7 corrupts: every selected frame of a record that is not the first
     selected record and whose first selected frame is not at offset 0 (only for a step > 1)."""
@@ -836,10 +928,8 @@ def random_selector(rng, n):
 
 def random_channels(rng, fam, p):
     r = rng.random()
-    # LIS: any non-empty subset fails the whole file today (F19) and nothing else can be checked on such a case
-    if r < (0.85 if fam == 'LIS' else 0.45) or not p.names:
+    if r < 0.45 or not p.names:
         return []
-    r = rng.random() * 0.55 + 0.45
     present = [nm for nm in p.names[1:]] or list(p.names)
     unknown = ['NOPE', 'ZZ9', 'no such', 'x y', '']
     k = rng.choice([1, 1, 2, 3, 5, len(present)])
@@ -1032,7 +1122,7 @@ def _run(ctx):
     ctx.extra['exhaustive_scope'] = f'BIT, generated file with one pass of n={n} frames: every slice with start/stop in -{n+1}..{n+1} or None, step 1..{n+1} or None ({ex} conversions), every sample size 1..{n+2}'
     run_cases(ctx, env, cases, truths)
     for c in cases[:3] + cases[len(cases) // 3: len(cases) // 3 + 2]:
-        ctx.sample({k: (v if k != 'src' else {kk: vv for kk, vv in v.items() if kk != 'desc'}) for k, v in c.items()})
+        ctx.sample({k: (v if k != 'src' else {kk: vv for kk, vv in v.items() if kk not in ('desc', 'req')}) for k, v in c.items()})
     ctx.count('cases_total', len(cases))
 
 
